@@ -1,6 +1,48 @@
-(* C07 - placeholder until C07Proofs.v is in *)
-From Coq Require Import List NArith.
-From O1722 Require Import VssModel.
+(* C07 - VSS messages are encoded exactly as the ACF-VSS description prescribes. *)
+From Coq Require Import List NArith Bool.
+From O1722 Require Import Bits Host FieldModel Spec SpecProofs VssModel VssSpec C13Proofs C07Proofs.
 From O1722.Generated Require Import Tables.
-Theorem C07_datatype_codes : forallb (fun p => match FormatChecks.assoc enum_values (fst p) with Some v => N.eqb v (snd p) | None => false end) datatype_names = true.
-Proof. vm_compute. reflexivity. Qed.
+Import ListNotations.
+Local Open Scope N_scope.
+
+(* the datatype / address-mode codes the hand-written model dispatches on are those of the regenerated enums *)
+Theorem C07_datatype_codes :
+  forallb (fun p => match FormatChecks.assoc enum_values (fst p) with Some v => N.eqb v (snd p) | None => false end) datatype_names = true.
+Proof. exact datatype_codes_ok. Qed.
+
+(* For either address mode, every datatype shape (scalars of 1/2/4/8 bytes incl. float/double bit patterns, strings and
+   byte arrays, arrays of 2/4/8-byte elements of ANY number of elements whose byte length fits 16 bits, packed string
+   arrays), every path / static id, every prior buffer content and both host byte orders: writing the path and then the
+   value leaves  header ++ enc_path ++ enc_data ++ old tail  - the reference encoding of VssSpec.v (16-bit big-endian
+   byte-length prefixes, big-endian elements in order), nothing else modified. *)
+Theorem C07_encode : forall E b p d,
+  SpecProofs.normal b -> path_ok p -> hdr_mode b = path_mode p -> data_ok (hdr_datatype b) d ->
+  12 + N.of_nat (length (enc_path p)) + N.of_nat (length (enc_data d)) <= blen b ->
+  exists b1, vss_set_path (stwE E) (ldqE E) (stqE E) b (to_vpath p) = Ok b1 /\
+    vss_set_data (ldwE E) (stwE E) (ldqE E) (stqE E) b1 (to_vdata d) =
+      Ok (firstn 12 b ++ enc_path p ++ enc_data d ++ skipn (12 + length (enc_path p) + length (enc_data d)) b).
+Proof. exact encode_exact. Qed.
+
+(* the two steps on their own *)
+Theorem C07_path : forall E b p, path_ok p -> hdr_mode b = path_mode p -> 12 + N.of_nat (length (enc_path p)) <= blen b ->
+  vss_set_path (stwE E) (ldqE E) (stqE E) b (to_vpath p) = Ok (upd b 12 (enc_path p)).
+Proof. exact set_path_exact. Qed.
+Theorem C07_data : forall E b d pl, SpecProofs.normal b -> vss_calc_path_len (ldwE E) (ldqE E) (stqE E) b = Ok pl ->
+  data_ok (hdr_datatype b) d -> 12 + pl + N.of_nat (length (enc_data d)) <= blen b ->
+  vss_set_data (ldwE E) (stwE E) (ldqE E) (stqE E) b (to_vdata d) = Ok (upd b (12 + pl) (enc_data d)).
+Proof. exact set_data_exact. Qed.
+
+(* reserved address modes and reserved datatype codes write nothing *)
+Theorem C07_reserved_mode : forall E b p, 12 <= blen b -> hdr_mode b <> 0 -> hdr_mode b <> 1 ->
+  vss_set_path (stwE E) (ldqE E) (stqE E) b p = Ok b.
+Proof. exact reserved_mode. Qed.
+Theorem C07_reserved_datatype : forall E b d pl, 12 <= blen b -> vss_calc_path_len (ldwE E) (ldqE E) (stqE E) b = Ok pl ->
+  vss_kind (hdr_datatype b) = KN -> vss_set_data (ldwE E) (stwE E) (ldqE E) (stqE E) b d = Ok b.
+Proof. exact reserved_datatype. Qed.
+
+Example C07_example :
+  let b := [0x84;0;0x00;0x84; 0;0;0;0; 0;0;0;0] ++ repeat 0xee 20 in
+  exists b1, vss_set_path (stwE LE) (ldqE LE) (stqE LE) b (PInterop 2 [0x41;0x42]) = Ok b1 /\
+    vss_set_data (ldwE LE) (stwE LE) (ldqE LE) (stqE LE) b1 (DElems 8 [0x01020304; 0xdeadbeef]) =
+      Ok ([0x84;0;0x00;0x84; 0;0;0;0; 0;0;0;0] ++ [0;2;0x41;0x42] ++ [0;8; 1;2;3;4; 0xde;0xad;0xbe;0xef] ++ repeat 0xee 6).
+Proof. eexists. split; vm_compute; reflexivity. Qed.
